@@ -44,7 +44,7 @@ static const uint64_t kSentinel = 0x7ff8dead0000beefull;
 static uint64_t bits(double x) { uint64_t u; memcpy(&u, &x, 8); return u; }
 static double from_bits(uint64_t u) { double x; memcpy(&x, &u, 8); return x; }
 
-enum Reader { RDouble, RText, RSegment };
+enum Reader { RDouble, RText, RSegment, RKey };
 enum Accept { MustAccept, MayRefuse, MustRefuse };
 
 struct Expect {
@@ -61,6 +61,8 @@ struct Model {
   std::vector<std::string> seg;          // RSegment: expected bytes per element
   std::vector<bool> seg_term;            //           element is zero terminated (string) or the open tail (character vector)
   std::map<uint64_t, uint64_t> seen;     // position -> bit pattern of the element when it was first read
+  std::map<uint64_t, std::string> seen_key;  // RKey: position -> keyword when it was first read
+  std::vector<std::string> keys;         // RKey: keywords the text denotes (empty: unknown)
   bool tail_bad = false;                 // explicit list: the text behind the last element is not a number
   bool lenient = false;                  // denotation unknown (dubious / mutated description): an error return ends the checks
   Accept accept = MustAccept;
@@ -198,6 +200,22 @@ static void op_value(Ctx &c, Model &M, Live &l) {
     }
     return;
   }
+  if (M.reader == RKey) {
+    // keyword conversion of the text element; the string is only valid until the next call, so it is copied at once
+    uint64_t p = l.pos;
+    const char *key = 0;
+    int rc = mpt_value_convert(v, 'k', &key);
+    l.fresh_read = true;
+    std::string got = rc >= 0 && key ? std::string(key, strnlen(key, 200)) : std::string();
+    c.logf("  #%d value() @%llu -> convert('k') = %d, \"%s\"", l.id, (unsigned long long)p, rc, got.c_str());
+    if (rc < 0 || !key) { observe_absent(c, M, l, "keyword conversion of the element reports an error"); return; }
+    observe_present(c, M, l, 0, false);
+    auto sk = M.seen_key.find(p);
+    if (sk == M.seen_key.end()) M.seen_key[p] = got;
+    else VP_CHECK(c, sk->second == got, "replay-mismatch", "%s #%d: element %llu reads \"%s\", it was \"%s\" when first read", M.what.c_str(), l.id, (unsigned long long)p, got.c_str(), sk->second.c_str());
+    if (p < M.keys.size()) VP_CHECK(c, got == M.keys[p], "key-mismatch", "%s #%d: element %llu is the keyword \"%s\", the text denotes \"%s\"", M.what.c_str(), l.id, (unsigned long long)p, got.c_str(), M.keys[p].c_str());
+    return;
+  }
   double x = from_bits(kSentinel);
   int rc = mpt_value_convert(v, 'd', &x);
   c.logf("  #%d value() @%llu -> type %d, convert('d') = %d, %.17g", l.id, (unsigned long long)l.pos, (int)v->_type, rc, x);
@@ -217,7 +235,7 @@ static void op_value(Ctx &c, Model &M, Live &l) {
 
 // returns the result of advance()
 static int op_advance(Ctx &c, Model &M, Live &l) {
-  if (M.reader == RText && !l.fresh_read && !l.dead) op_value(c, M, l);
+  if ((M.reader == RText || M.reader == RKey) && !l.fresh_read && !l.dead) op_value(c, M, l);
   uint64_t p = l.pos;
   int r = iter_advance(l.it);
   c.logf("  #%d advance() @%llu -> %d", l.id, (unsigned long long)p, r);
@@ -312,7 +330,7 @@ static void drive(Ctx &c, Session &S, Model &M, mpt::metatype *mt, mpt::iterator
         VP_CHECK(c, i2, "no-iterator", "%s: the clone does not convert to an iterator", M.what.c_str());
         Live nl = L[li];
         nl.mt = m2; nl.it = i2; nl.id = nextid++; nl.fresh_read = false;
-        if (M.reader == RText) nl.base = nl.pos;
+        if (M.reader == RText || M.reader == RKey) nl.base = nl.pos;
         L.push_back(nl);
         c.label("op:clone");
         if (L[li].pos) c.label("op:clone-mid-sequence");
@@ -840,6 +858,40 @@ static void run_text(Ctx &c) {
   drive(c, S, M, mt);
 }
 
+// text argument iterator read as keywords ('k'), with a generated separator argument (NULL = default " ,;/:", "" = white
+// space only, custom sets) and texts that contain the default separator characters. Oracle: self consistency of the source,
+// its clones (taken at drawn positions, before and after the current element was read) and replays after reset — every
+// element has to read the same keyword wherever it is read — and the element count has to be consistent.
+static void run_text_keys(Ctx &c) {
+  Session S;
+  Model M;
+  M.reader = RKey;
+  static const char *kWord[] = {"alpha", "beta", "x1", "k", "long-word", "3.5", "a=b", "Z"};
+  static const char *kJoin[] = {" ", ",", ";", "/", ":", ", ", " ,", "|", "  ", " : "};
+  static const char *kSep[] = {0, "", ",", ";:", " ", " ,", "|", ":/;, "};
+  size_t n = c.range(0, 6);
+  std::string t;
+  for (size_t k = 0; k < n; k++) {
+    if (k) t += kJoin[c.weighted({8, 4, 2, 2, 2, 2, 1, 1, 1, 1})];
+    t += kWord[c.pick(8)];
+  }
+  size_t si = c.pick(8);
+  const char *sep = kSep[si];
+  char *heap = (char *)malloc(t.size() + 1);
+  memcpy(heap, t.c_str(), t.size() + 1);
+  S.heap.push_back(heap);
+  M.what = "mpt_iterator_string(\"" + t + "\", " + (sep ? "\"" + std::string(sep) + "\"" : std::string("NULL")) + ") as keywords";
+  c.logf("%s ...", M.what.c_str());
+  mpt::metatype *mt = mpt_iterator_string(heap, sep);
+  c.label("kind:text-keywords");
+  c.label(!sep ? "keys:default-separators" : !*sep ? "keys:empty-separator-set" : "keys:custom-separators");
+  if (t.find_first_of(",;/:") != std::string::npos) c.label("keys:text-has-default-separator-chars");
+  check_created(c, M, mt);
+  if (!mt) return;
+  S.owned.push_back(mt);
+  drive(c, S, M, mt);
+}
+
 static void run_buffer(Ctx &c) {
   Session S;
   Model M;
@@ -1160,6 +1212,7 @@ static void run(Ctx &c) {
   if (sel < 190) return run_direct(c);
   if (sel < 215) return run_text(c);
   if (sel >= 232 && sel < 240) return run_names(c);
+  if (sel >= 226 && sel < 232) return run_text_keys(c);
   if (sel < 240) return run_buffer(c);
   run_fill(c);
 }
